@@ -67,6 +67,39 @@ theorem audit_passed_only_vouched (hv : tbl.Vouched = true) (root : Node) (T : L
   exact node_trace_ok tbl T tbl.allDefaults hv (defaults_in_all tbl) (typeDefaults_in_all tbl) root hs hx {}
     (by intro e he; cases he) e he
 
+/-- **with `CachedNode` references**: `load` succeeded, and whatever the references point at was audited where it
+sits in the tree (`RefsAudited`, the memo invariant — evaluated by the driver on every tree `getTree` builds, as
+`refsAuditedB`); then every resolution `construct` performs is vouched for -/
+theorem load_only_vouched_refs (hv : tbl.Vouched = true) (root : Node) (T : List String)
+    (hra : root.RefsAudited tbl T) (hx : root.ExtrasIn tbl.allDefaults) (ev : List Event)
+    (hload : loadTree tbl root T = .constructed ev) :
+    ∀ e ∈ ev, EventOK T tbl.allDefaults e := by
+  simp only [loadTree] at hload
+  cases hu : root.unsafe tbl T with
+  | none => simp [hu] at hload
+  | some l =>
+    simp only [hu] at hload
+    split at hload
+    · rename_i hemp
+      cases hload
+      have hl : l = [] := by
+        have h1 : sortDedup l = [] := by simpa using hemp
+        cases l with
+        | nil => rfl
+        | cons a b =>
+          have : a ∈ sortDedup (a :: b) := (Skops.Io.mem_sortDedup a (a :: b)).mpr (by simp)
+          rw [h1] at this; cases this
+      subst hl
+      exact audit_passed_only_vouched tbl hv root T (node_safe_of_unsafe_nil' tbl T root hra hu) hx
+    · cases hload
+
+/-- the computable form of the invariant suffices -/
+theorem load_only_vouched_refsB (hv : tbl.Vouched = true) (root : Node) (T : List String)
+    (hra : root.refsAuditedB tbl T = true) (hx : root.ExtrasIn tbl.allDefaults) (ev : List Event)
+    (hload : loadTree tbl root T = .constructed ev) :
+    ∀ e ∈ ev, EventOK T tbl.allDefaults e :=
+  load_only_vouched_refs tbl hv root T (node_refsAudited_of_B tbl T root hra) hx ev hload
+
 /-- for archives without `CachedNode` references the hypothesis `Safe` is exactly "the audit returned
 the empty set" -/
 theorem load_only_vouched (hv : tbl.Vouched = true) (root : Node) (T : List String)
@@ -103,5 +136,12 @@ theorem C01_current (root : Node) (T : List String) (hnr : root.NoRefs)
     (hload : loadTree Generated.table root T = .constructed ev) :
     ∀ e ∈ ev, EventOK T Generated.table.allDefaults e :=
   load_only_vouched Generated.table table_vouched root T hnr hx ev hload
+
+/-- … and for trees with references, under the invariant the driver checks on each of them -/
+theorem C01_current_refs (root : Node) (T : List String) (hra : root.refsAuditedB Generated.table T = true)
+    (hx : root.ExtrasIn Generated.table.allDefaults) (ev : List Event)
+    (hload : loadTree Generated.table root T = .constructed ev) :
+    ∀ e ∈ ev, EventOK T Generated.table.allDefaults e :=
+  load_only_vouched_refsB Generated.table table_vouched root T hra hx ev hload
 
 end Skops.Properties.C01
